@@ -14,9 +14,19 @@
 
 namespace cnl {
     namespace _impl {
+#if defined(JOHNMCFARLANE_CNL_VERIF)
+        // verification hook: lets an in-process harness observe (and escape from)
+        // abort (kind 0, with message) and unreachable (kind 1, no message)
+        inline void (*verif_hook)(int kind, char const* message) = nullptr;
+#endif
         template<class Result>
         [[noreturn]] constexpr auto abort(char const* message) noexcept -> Result
         {
+#if defined(JOHNMCFARLANE_CNL_VERIF)
+            if (verif_hook) {
+                verif_hook(0, message);
+            }
+#endif
             (void)std::fputs(message, stderr);
             (void)std::fputc('\n', stderr);
             std::abort();
